@@ -77,7 +77,7 @@ fn known(requirements: Vec<Req>, constrains: Vec<u32>) -> Deps {
 /// other alternative is dead; an optional decoy package temporarily constrains package 0 and is
 /// abandoned after a conflict, so candidates are also discovered while they are assigned false.
 /// Returns (world, root requirements, exact version set per candidate index).
-fn c15_world(rng: &mut Rng, n: usize, anchor_idx: usize) -> (World, Vec<Req>, Vec<u32>) {
+pub fn c15_world(rng: &mut Rng, n: usize, anchor_idx: usize) -> (World, Vec<Req>, Vec<u32>) {
     let mut f = Fam {
         w: World::default(),
         next_name: 1,
@@ -481,55 +481,71 @@ impl Property for C15 {
             gen_config(&mut cr, &mut sc, None);
             sc.hash_salt = cr.next_u64();
             sc.capture_state = true;
+            // "any discovery order" includes candidates named as soft requirements ...
+            if j.is_none() && n >= 2 && pr.chance(1, 3) {
+                for _ in 0..pr.range(1, 2) {
+                    let other = (i + 1 + pr.below(n - 1)) % n;
+                    sc.solves[0].problem.soft.push(other as u32);
+                }
+            }
+            // ... and a second solve on the same solver (the same problem again, or the single problem first)
+            if pr.chance(1, 4) {
+                let mut first = sc.solves[0].clone();
+                if pr.chance(1, 2) && first.problem.requirements.len() > 1 {
+                    first.problem.requirements.pop();
+                }
+                sc.solves.insert(0, first);
+            }
             out.push(sc);
         }
         out
     }
     fn judge(&self, sc: &Scenario) -> Verdict {
         let w = &sc.world;
-        let p = &sc.solves[0].problem;
         let rec = execute(sc);
         let mut v = base_verdict(sc, &rec);
-        let o = &rec.outcomes[0];
-        if o.is_crash() {
+        if rec.outcomes.iter().any(|o| o.is_crash()) {
             v.aborted_other = true;
             return v;
         }
         v.nontrivial = w.packages.values().any(|p| p.candidates.len() >= 3);
-        // invariant on the recorded clause database: any two candidates that requirements offer are mutually
-        // exclusive through their helper patterns, whatever order they were registered in
-        if let Some(Some(d)) = rec.dumps.first() {
-            *v.probes.entry("internal_state_checked").or_insert(0) += 1;
-            if let Some(e) = crate::internal::at_most_one_encoding(w, d) {
-                v.evaluated = true;
-                v.violate("internal:at-most-one", e);
-            }
-        }
-        // Whether the problem requires two different candidates of one package (directly, through revealer
-        // solvables or through unions whose other alternative is dead) is decided by the reference.
-        match ref_verdict(w, p) {
-            None => v.inconclusive = true,
-            Some(false) => {
-                v.evaluated = true;
-                if let Outcome::Ok(s) = o {
-                    let mut per: std::collections::BTreeMap<u32, Vec<u32>> = Default::default();
-                    for x in s {
-                        per.entry(w.solvable_name(*x)).or_default().push(*x);
-                    }
-                    let multi: Vec<&Vec<u32>> = per.values().filter(|c| c.len() > 1).collect();
-                    v.violate("pair-accepted", format!("the problem cannot be satisfied with one solvable per package, but solve returned {s:?} (several from one package: {multi:?})"));
+        for (si, o) in rec.outcomes.iter().enumerate() {
+            let p = &sc.solves[si].problem;
+            // invariant on the recorded clause database: any two candidates that requirements offer are mutually
+            // exclusive through their helper patterns, whatever order they were registered in
+            if let Some(Some(d)) = rec.dumps.get(si) {
+                *v.probes.entry("internal_state_checked").or_insert(0) += 1;
+                if let Some(e) = crate::internal::at_most_one_encoding(w, d) {
+                    v.evaluated = true;
+                    v.violate("internal:at-most-one", format!("solve #{si}: {e}"));
                 }
             }
-            Some(true) => {
-                v.evaluated = true;
-                match o {
-                    Outcome::Ok(s) => {
-                        if let Some((cat, text)) = crate::reference::validity_errors(w, p, s).first() {
-                            v.violate(format!("single-wrong:{cat}"), format!("returned {s:?}: {text}"));
+            // Whether the problem requires two different candidates of one package (directly, through revealer
+            // solvables or through unions whose other alternative is dead) is decided by the reference.
+            match ref_verdict(w, p) {
+                None => v.inconclusive = true,
+                Some(false) => {
+                    v.evaluated = true;
+                    if let Outcome::Ok(s) = o {
+                        let mut per: std::collections::BTreeMap<u32, Vec<u32>> = Default::default();
+                        for x in s {
+                            per.entry(w.solvable_name(*x)).or_default().push(*x);
                         }
+                        let multi: Vec<&Vec<u32>> = per.values().filter(|c| c.len() > 1).collect();
+                        v.violate("pair-accepted", format!("solve #{si}: the problem cannot be satisfied with one solvable per package, but solve returned {s:?} (several from one package: {multi:?})"));
                     }
-                    Outcome::Unsolvable(_) => v.violate("single-rejected", "requiring exactly one candidate of the package is satisfiable but solve says Unsolvable"),
-                    _ => {}
+                }
+                Some(true) => {
+                    v.evaluated = true;
+                    match o {
+                        Outcome::Ok(s) => {
+                            if let Some((cat, text)) = crate::reference::validity_errors(w, p, s).first() {
+                                v.violate(format!("single-wrong:{cat}"), format!("solve #{si} returned {s:?}: {text}"));
+                            }
+                        }
+                        Outcome::Unsolvable(_) => v.violate("single-rejected", format!("solve #{si}: requiring exactly one candidate of the package is satisfiable but solve says Unsolvable")),
+                        _ => {}
+                    }
                 }
             }
         }
